@@ -80,6 +80,9 @@ struct Shim {
     model_pushes: u32,
     last_assumptions: Vec<SExpr>,
     last_unsat: bool,
+    /// values of the current model (cleared by every command other than get-value)
+    model_cache: Option<smtref::ValEnv>,
+    const_cache: std::collections::HashMap<String, SVal>,
 }
 
 fn json_escape(s: &str) -> String {
@@ -233,8 +236,47 @@ impl Shim {
         }
     }
 
-    /// value of a (checked) term in the backend's current model
+    /// value of a (checked) term in the backend's current model: declared constants are read from
+    /// the backend (always literals; arrays element by element), every other term is evaluated by
+    /// `smtref::eval` under those values. z3 4.8 answers `get-value` on a *defined* term with
+    /// unevaluated quantifiers / lambdas when array models are functions, so its evaluator is not used.
     fn value_of(&mut self, term: &SExpr, sort: &Sort) -> Result<SVal, String> {
+        let is_declared_const =
+            term.sym().map(|n| self.scopes.get(n).map(|b| b.def.is_none()).unwrap_or(false)).unwrap_or(false);
+        if is_declared_const {
+            return self.const_value(term, sort);
+        }
+        if self.model_cache.is_none() {
+            let mut env = smtref::ValEnv::new();
+            for (name, csort) in self.scopes.declared_consts() {
+                let t = SExpr::Atom(Atom::Symbol(name.clone()));
+                let v = self.const_value(&t, &csort)?;
+                env.insert(name, v);
+            }
+            smtref::eval_definitions(&self.scopes, &mut env)?;
+            self.model_cache = Some(env);
+        }
+        let env = self.model_cache.as_ref().unwrap();
+        let v = smtref::eval(term, &self.scopes, env, &mut vec![])?;
+        Ok(match (sort, v) {
+            (Sort::Bool, SVal::B(_, b)) => SVal::B(Sort::Bool, b),
+            (_, v) => v,
+        })
+    }
+
+    /// value of a declared constant in the backend's current model
+    fn const_value(&mut self, term: &SExpr, sort: &Sort) -> Result<SVal, String> {
+        if let Some(v) = term.sym().and_then(|n| self.const_cache.get(n)) {
+            return Ok(v.clone());
+        }
+        let v = self.const_value_uncached(term, sort)?;
+        if let Some(n) = term.sym() {
+            self.const_cache.insert(n.to_string(), v.clone());
+        }
+        Ok(v)
+    }
+
+    fn const_value_uncached(&mut self, term: &SExpr, sort: &Sort) -> Result<SVal, String> {
         match sort {
             Sort::Bool | Sort::BV(_) => {
                 let r = self.z3.roundtrip(&format!("(get-value ({}))", smtref::print_sexpr(term)));
@@ -304,6 +346,10 @@ impl Shim {
             }
         };
         use smtref::CmdKind::*;
+        if !matches!(kind, GetValue(_)) {
+            self.model_cache = None;
+            self.const_cache.clear();
+        }
         if self.profile_name == "yices-smt2" && matches!(kind, GetUnsatAssumptions) {
             let msg = "(error \"yices-smt2: get-unsat-assumptions is not supported\")";
             self.log("reject", &text, msg);
@@ -518,6 +564,14 @@ fn read_command(input: &mut impl BufRead, buf: &mut String) -> Option<String> {
 }
 
 fn main() {
+    // a bug in the reference solver must not look like a solver verdict or a solver error of the
+    // code under test: answer with a marked error (classified as harness trouble) and stop
+    std::panic::set_hook(Box::new(|info| {
+        let msg = format!("{}", info).replace('"', "'").replace('\n', " ");
+        println!("(error \"refsolver internal: {}\")", msg);
+        let _ = std::io::stdout().flush();
+        std::process::exit(4);
+    }));
     let argv0 = std::env::args().next().unwrap_or_default();
     let profile_name = std::path::Path::new(&argv0)
         .file_name()
@@ -548,6 +602,8 @@ fn main() {
         responses: 0,
         log,
         model_pushes: 0,
+        model_cache: None,
+        const_cache: Default::default(),
         last_assumptions: vec![],
         last_unsat: false,
     };
